@@ -2,6 +2,7 @@ package main
 
 import (
 	"fmt"
+	"go/constant"
 	"go/token"
 	"go/types"
 	"strings"
@@ -173,6 +174,30 @@ func (c *Check) callgrindRules() {
 			}
 		}
 	})
+	if cn == nil {
+		// by shape: the one function of the package that takes a map[string]int table and a
+		// name, returns a string and inserts the name into the table
+		var cands []*ssa.Function
+		forAllPkgFuncs(p, "internal/report", func(f *ssa.Function) {
+			if len(f.Params) != 2 || f.Signature.Results().Len() != 1 || f.Signature.Recv() != nil {
+				return
+			}
+			mt, ok := f.Params[0].Type().Underlying().(*types.Map)
+			if !ok {
+				return
+			}
+			kb, ok1 := mt.Key().Underlying().(*types.Basic)
+			vb, ok2 := mt.Elem().Underlying().(*types.Basic)
+			sb, ok3 := f.Params[1].Type().Underlying().(*types.Basic)
+			rb, ok4 := f.Signature.Results().At(0).Type().Underlying().(*types.Basic)
+			if ok1 && ok2 && ok3 && ok4 && kb.Kind() == types.String && vb.Info()&types.IsInteger != 0 && sb.Kind() == types.String && rb.Kind() == types.String {
+				cands = append(cands, f)
+			}
+		})
+		if len(cands) == 1 {
+			cn = cands[0]
+		}
+	}
 	if cn == nil {
 		c.undecided("C18-R2", "anchor:internal/report.callgrindName", "", "the callgrind name compressor (a function formatting \"(%d) %s\") was not found in package report")
 		return
@@ -378,7 +403,123 @@ func (c *Check) callgrindRules() {
 	} else {
 		c.bad("C18-R2", "name:newid", p.relFile(upd.Pos()), "callgrindName does not record len(names)+1 under the name it was given")
 	}
-	// returns
+	// returns: what is handed back is, written as a sequence of text pieces, either
+	// "(" id ")" with the id found in the table, on the path where the lookup succeeded, or
+	// "(" id ") " name with the id just recorded for that name.  Sprintf("(%d)", …),
+	// Sprintf("(%d) %s", …) and concatenations with strconv.Itoa are all read as such sequences;
+	// an id that is a merge of "found" and "new" is resolved per path.
+	seenFlag := func(v ssa.Value) bool { return isExtractOf(v, lookups[0], 1) }
+	assumeSeen := func(val int) func(ssa.Value) int {
+		return func(cond ssa.Value) int {
+			if seenFlag(cond) {
+				return val
+			}
+			if un, ok := cond.(*ssa.UnOp); ok && un.Op == token.NOT && seenFlag(un.X) {
+				return -val
+			}
+			return 0
+		}
+	}
+	reachHit := reachUnder(cn, assumeSeen(1))
+	reachMiss := reachUnder(cn, assumeSeen(-1))
+	// pieces of a string value
+	var pieces func(v ssa.Value, d int) []ssa.Value
+	pieces = func(v ssa.Value, d int) []ssa.Value {
+		if d > 6 {
+			return []ssa.Value{v}
+		}
+		switch x := v.(type) {
+		case *ssa.BinOp:
+			if x.Op == token.ADD {
+				return append(pieces(x.X, d+1), pieces(x.Y, d+1)...)
+			}
+		case *ssa.Call:
+			if sc := x.Call.StaticCallee(); sc != nil {
+				switch sc.String() {
+				case "strconv.Itoa":
+					return []ssa.Value{x.Call.Args[0]}
+				case "strconv.FormatInt":
+					if cv, ok := x.Call.Args[0].(*ssa.Convert); ok {
+						return []ssa.Value{cv.X}
+					}
+					return []ssa.Value{x.Call.Args[0]}
+				case "fmt.Sprintf":
+					format, _ := constString(x.Call.Args[0])
+					args := variadicValues(x.Call.Args[1])
+					var out []ssa.Value
+					rest := format
+					ai := 0
+					for {
+						i := strings.Index(rest, "%")
+						if i < 0 || i+1 >= len(rest) || ai >= len(args) {
+							break
+						}
+						if i > 0 {
+							out = append(out, ssa.NewConst(constant.MakeString(rest[:i]), types.Typ[types.String]))
+						}
+						a := args[ai]
+						if mi, ok := a.(*ssa.MakeInterface); ok {
+							a = mi.X
+						}
+						out = append(out, a)
+						ai++
+						rest = rest[i+2:]
+					}
+					if rest != "" {
+						out = append(out, ssa.NewConst(constant.MakeString(rest), types.Typ[types.String]))
+					}
+					return out
+				}
+			}
+		}
+		return []ssa.Value{v}
+	}
+	// the id an integer value denotes on a path (hit: lookup value, miss: new id)
+	resolveID := func(v ssa.Value, reach map[*ssa.BasicBlock]bool, hitPath bool) ssa.Value {
+		for i := 0; i < 3; i++ {
+			ph, ok := v.(*ssa.Phi)
+			if !ok {
+				return v
+			}
+			var live []ssa.Value
+			for k, e := range ph.Edges {
+				pred := ph.Block().Preds[k]
+				if !reach[pred] {
+					continue
+				}
+				// the edge is pruned when pred branches on the flag the other way
+				if iff, ok := pred.Instrs[len(pred.Instrs)-1].(*ssa.If); ok && (seenFlag(iff.Cond)) {
+					want := 1 // the flag is false on the miss path
+					if hitPath {
+						want = 0
+					}
+					if pred.Succs[want] != ph.Block() {
+						continue
+					}
+				}
+				live = append(live, e)
+			}
+			if len(live) != 1 {
+				return v
+			}
+			v = live[0]
+		}
+		return v
+	}
+	text := func(ps []ssa.Value) (string, []ssa.Value) {
+		// the constant skeleton with \x00 for each value piece, and the value pieces
+		sk := ""
+		var vals []ssa.Value
+		for _, q := range ps {
+			if k, ok := constString(q); ok {
+				sk += k
+			} else {
+				sk += "\x00"
+				vals = append(vals, q)
+			}
+		}
+		return sk, vals
+	}
 	for _, b := range cn.Blocks {
 		ret, ok := b.Instrs[len(b.Instrs)-1].(*ssa.Return)
 		if !ok {
@@ -388,31 +529,28 @@ func (c *Check) callgrindRules() {
 		if s, ok := constString(r); ok && s == "" {
 			continue
 		}
-		call, ok := r.(*ssa.Call)
-		if !ok || call.Call.StaticCallee() == nil || call.Call.StaticCallee().String() != "fmt.Sprintf" {
-			c.undecided("C18-R2", "name:return", p.relFile(ret.Pos()), "callgrindName returns something other than a Sprintf")
-			continue
-		}
-		format, _ := constString(call.Call.Args[0])
-		argVals := variadicValues(call.Call.Args[1])
-		switch format {
-		case "(%d)":
+		sk, vals := text(pieces(r, 0))
+		switch sk {
+		case "(\x00)":
 			// the id must be the looked-up value and the block must be on the hit branch
-			hit := len(argVals) == 1 && isExtractOf(argVals[0], lookups[0], 0) && onTrueBranchOf(b, lookups[0])
+			hit := len(vals) == 1 && reachHit[b] && !reachMiss[b] && isExtractOf(resolveID(vals[0], reachHit, true), lookups[0], 0)
 			if hit {
 				c.ok("C18-R2", "name:backref", p.relFile(ret.Pos()), "'(n)' back-reference", "returned only on the branch where the table lookup succeeded, with the id stored in the table")
 			} else {
 				c.bad("C18-R2", "name:backref", p.relFile(ret.Pos()), "callgrindName can return a '(n)' back-reference that was not looked up in the table")
 			}
-		case "(%d) %s":
-			def := len(argVals) == 2 && argVals[0] == upd.Value && argVals[1] == ssa.Value(name) && (upd.Block() == b || upd.Block().Dominates(b))
+		case "(\x00) \x00":
+			def := len(vals) == 2 && resolveID(vals[0], reachMiss, false) == upd.Value && vals[1] == ssa.Value(name) && (upd.Block() == b || upd.Block().Dominates(b) || !reachMiss[b] || reachMiss[upd.Block()])
+			if def && reachHit[b] && !reachMiss[b] {
+				def = false // a definition on the path where the name was already known
+			}
 			if def {
 				c.ok("C18-R2", "name:define", p.relFile(ret.Pos()), "'(n) name' definition", "printed with the id just recorded for that name")
 			} else {
 				c.bad("C18-R2", "name:define", p.relFile(ret.Pos()), "callgrindName defines '(n) name' with an id or name different from what it recorded")
 			}
 		default:
-			c.bad("C18-R2", "name:format", p.relFile(ret.Pos()), fmt.Sprintf("callgrindName returns unexpected format %q", format))
+			c.bad("C18-R2", "name:format", p.relFile(ret.Pos()), fmt.Sprintf("callgrindName returns unexpected format %q", strings.ReplaceAll(sk, "\x00", "%v")))
 		}
 	}
 	c.Floor("C18-R2", 10)
@@ -434,7 +572,64 @@ func (c *Check) callgrindRules() {
 		}
 	}
 	if basePhi == nil {
-		c.undecided("C18-R2", "position-base", p.relFile(pc.Pos()), "the base of callgrindAddress is not a loop-carried value of printCallgrind")
+		// the base kept in a field of a printer object: the field is assigned the address of the
+		// current node's Info on every iteration of the node loop
+		var fld *ssa.FieldAddr
+		for _, g := range withHelpers(pc, 2) {
+			for _, b := range g.Blocks {
+				for _, ins := range b.Instrs {
+					call, ok := ins.(*ssa.Call)
+					if !ok || call.Call.StaticCallee() == nil || call.Call.StaticCallee().Name() != "callgrindAddress" {
+						continue
+					}
+					if fa := fieldAddrOf(call.Call.Args[0]); fa != nil {
+						fld = fa
+					}
+				}
+			}
+		}
+		if fld == nil {
+			c.undecided("C18-R2", "position-base", p.relFile(pc.Pos()), "the base of callgrindAddress is not a loop-carried value of printCallgrind")
+		} else {
+			T, F := fieldOf(fld.X.Type(), fld.Field)
+			n, bad := 0, ""
+			for _, b := range pc.Blocks {
+				for _, ins := range b.Instrs {
+					st, ok := ins.(*ssa.Store)
+					if !ok {
+						continue
+					}
+					fa, ok := st.Addr.(*ssa.FieldAddr)
+					if !ok {
+						continue
+					}
+					if T2, F2 := fieldOf(fa.X.Type(), fa.Field); T2 != T || F2 != F {
+						continue
+					}
+					hdr := loopHeaderAround(b)
+					if hdr == nil {
+						continue // initialisation before the loop
+					}
+					n++
+					if ifa, ok := st.Val.(*ssa.FieldAddr); !ok {
+						bad = describeValue(st.Val)
+					} else if _, IF := fieldOf(ifa.X.Type(), ifa.Field); IF != "Info" {
+						bad = describeValue(st.Val)
+					}
+					if iterationSkips(hdr, b, func(ssa.Value) int { return 0 }) {
+						bad = "its previous value on some iterations"
+					}
+				}
+			}
+			switch {
+			case n == 0:
+				c.bad("C18-R2", "position-base", p.relFile(pc.Pos()), "printCallgrind never advances "+T+"."+F+", the base of relative positions, inside its node loop")
+			case bad != "":
+				c.bad("C18-R2", "position-base", p.relFile(pc.Pos()), "printCallgrind does not advance the base of relative positions on every node (it can keep "+bad+"): from the third cost line of a block on, +n/-n offsets are relative to the wrong line and a reader reconstructs wrong addresses")
+			default:
+				c.ok("C18-R2", "position-base", p.relFile(pc.Pos()), "relative positions are computed against the previous cost line", T+"."+F+" is set to the current node's Info on every iteration of the node loop")
+			}
+		}
 	} else {
 		bad := ""
 		var flat func(v ssa.Value, seen map[ssa.Value]bool)
